@@ -1,0 +1,49 @@
+//go:build verif
+
+// Machine-checked contracts for package trend (read by /verif/govc; comment-only).
+
+package trend
+
+//@ func MovingSum.Compute
+//@ requires m.Period >= 1 && consumed(c) == 0
+//@ ensures[C02] len(result) == max(0, len(c) - m.IdlePeriod())
+//@ ensures[C01] forall k :: 0 <= k && k < len(result) ==> result[k] == psum(c, k + m.Period) - psum(c, k)
+//@ ensures[C03] consumed(c) == len(c) && closed(result)
+//@ lit#0 invariant sum == psum(cs[0], calls) - psum(cs[1], calls)
+//@ lit#0 yields psum(cs[0], calls+1) - psum(cs[1], calls+1)
+//@ use psum_shift(c, cs[0], 0)
+//@ use psum_shift(c, cs[1], m.Period)
+
+//@ func Sma.Compute
+//@ requires s.Period >= 1 && consumed(c) == 0
+//@ ensures[C02] len(result) == max(0, len(c) - s.IdlePeriod())
+//@ ensures[C01] forall k :: 0 <= k && k < len(result) ==> result[k] == (psum(c, k + s.Period) - psum(c, k)) / s.Period
+//@ ensures[C03] consumed(c) == len(c) && closed(result)
+
+// emaS(c,P,m,k): EMA recursion (value - prev) * m + prev seeded with the SMA of the first P values.
+//@ func Ema.Compute
+//@ requires e.Period >= 1 && consumed(c) == 0
+//@ ensures[C02] len(result) == max(0, len(c) - e.IdlePeriod())
+//@ ensures[C01] forall k :: 0 <= k && k < len(result) ==> result[k] == emaS(c, e.Period, e.Smoothing / (e.Period + 1), k)
+//@ ensures[C03] consumed(c) == len(c) && closed(result)
+//@ loop#0 invariant e.Period <= consumed(c) && sent(result) == consumed(c) - e.Period + 1 && !closed(result)
+//@ loop#0 invariant multiplier == e.Smoothing / (e.Period + 1) && before == emaS(c, e.Period, multiplier, sent(result) - 1)
+//@ loop#0 invariant forall k :: 0 <= k && k < sent(result) ==> result[k] == emaS(c, e.Period, multiplier, k)
+
+//@ func Rma.Compute
+//@ requires r.Period >= 1 && consumed(c) == 0
+//@ ensures[C02] len(result) == max(0, len(c) - r.IdlePeriod())
+//@ ensures[C01] forall k :: 0 <= k && k < len(result) ==> result[k] == rmaS(c, r.Period, k)
+//@ ensures[C03] consumed(c) == len(c) && closed(result)
+//@ loop#0 invariant r.Period <= consumed(c) && sent(result) == consumed(c) - r.Period + 1 && !closed(result)
+//@ loop#0 invariant before == rmaS(c, r.Period, sent(result) - 1)
+//@ loop#0 invariant forall k :: 0 <= k && k < sent(result) ==> result[k] == rmaS(c, r.Period, k)
+
+//@ func Smma.Compute
+//@ requires s.Period >= 1 && consumed(c) == 0
+//@ ensures[C02] len(result) == max(0, len(c) - s.IdlePeriod())
+//@ ensures[C01] forall k :: 0 <= k && k < len(result) ==> result[k] == rmaS(c, s.Period, k)
+//@ ensures[C03] consumed(c) == len(c) && closed(result)
+//@ loop#0 invariant s.Period <= consumed(c) && sent(result) == consumed(c) - s.Period + 1 && !closed(result)
+//@ loop#0 invariant before == rmaS(c, s.Period, sent(result) - 1)
+//@ loop#0 invariant forall k :: 0 <= k && k < sent(result) ==> result[k] == rmaS(c, s.Period, k)
